@@ -31,6 +31,8 @@ CONSTANTS NT, NX, NV, MaxIds, MaxCommits, MaxLocks, MaxCrash,
           Fix,         \* subset of {"F18"}: repairs applied to the code
           Mut,         \* subset of {"no_inc", "no_defer", "no_used"}: guards dropped (necessity configs)
           NoHist,      \* TRUE: the action history (needed only to print behaviours for replay) is not kept
+          Swap,        \* TRUE: an insertion may dereference another tree in the same transaction (insert the new
+                       \* state, prune an old one)
           Shapes(_)    \* menu of child lists for a new tree, given the set of referable ids
 
 TKeys == 1..NT
@@ -68,8 +70,10 @@ Refable == UNION {Reach(ideal[k].kids) : k \in {k \in TKeys : ideal[k].rc > 0}}
 
 \* with the repair the log worker holds the tree's write lock from its deferral check to the end
 \* of its plan; without it the lock is only taken for the walk itself (atomic inside Apply)
-WLocked == IF "F18" \in Fix /\ inflight # <<>> /\ inflight[1].tree.t = "deref"
-           THEN {inflight[1].tree.k} ELSE {}
+\* the trees a transaction dereferences: a DereferenceTree of its own, or the one an insertion carries along
+DK(tx) == IF tx.tree.t = "ins" THEN tx.tree.dk ELSE 0
+DerefKeys(tx) == (IF tx.tree.t = "deref" THEN {tx.tree.k} ELSE {}) \cup (IF DK(tx) # 0 THEN {DK(tx)} ELSE {})
+WLocked == IF "F18" \in Fix /\ inflight # <<>> THEN DerefKeys(inflight[1]) ELSE {}
 
 \* claim_tree_values: new nodes get ids in pre-order; existing children become increments
 RECURSIVE Flat(_, _)
@@ -110,14 +114,17 @@ UsedNow == IF "no_used" \in Mut THEN {}
            ELSE {k2 \in TKeys : toDeref[k2] > 0 /\ k2 \in (locked \cup WLocked)}
 
 \* `used`: the trees marked in used_trees (read from the registry a little BEFORE the commit is queued)
-CommitInsU(k, sh, st, used) ==
+\* dk: 0, or the key of a tree that the same transaction dereferences (after the insertion)
+CommitInsD(k, sh, st, used, dk) ==
     /\ ideal[k].rc = 0
     /\ k \notin locked     \* a key is not inserted again while a reader holds the old tree under it
+    /\ dk # 0 => (Swap /\ ~AO /\ dk # k /\ ideal[dk].rc > 0 /\ VisibleRoot(dk).rc > 0)
     /\ LET f == Flat(sh, nextId)
            root == [rc |-> 1, data |-> nextCid, kids |-> f.kids]
            tx == [cid |-> nextCid,
                   tree |-> [t |-> "ins", k |-> k, root |-> root, new |-> f.new,
-                           incs |-> IF AO THEN <<>> ELSE f.incs],
+                           incs |-> IF AO THEN <<>> ELSE f.incs,
+                           dk |-> dk, dkids |-> IF dk = 0 THEN <<>> ELSE VisibleRoot(dk).kids],
                   set |-> st,
                   used |-> used] IN
        /\ f.next - 1 <= MaxIds
@@ -126,10 +133,13 @@ CommitInsU(k, sh, st, used) ==
        /\ nrc' = [n \in Ids |-> IF n >= nextId /\ n < f.next THEN 1 ELSE nrc[n]]
        /\ nextId' = f.next
        /\ covlT' = [covlT EXCEPT ![k] = [cid |-> nextCid, root |-> root]]
-       /\ ideal' = [ideal EXCEPT ![k] = root]
+       /\ ideal' = [j \in TKeys |-> IF j = k THEN root
+                                    ELSE IF j = dk THEN (IF ideal[j].rc = 1 THEN NoRoot ELSE [ideal[j] EXCEPT !.rc = @ - 1])
+                                    ELSE ideal[j]]
        /\ queue' = Append(queue, tx)
        /\ hist' = Hist([a |-> "Commit", tx |-> tx, sh |-> sh])
-    /\ UNCHANGED <<toDeref>>
+    /\ toDeref' = [j \in TKeys |-> IF j = dk THEN toDeref[j] + 1 ELSE toDeref[j]]
+CommitInsU(k, sh, st, used) == CommitInsD(k, sh, st, used, 0)
 
 TwoStep == Fine /\ "F20" \notin Fix
 
@@ -177,6 +187,7 @@ Commit ==
     /\ ncommits < MaxCommits
     /\ \E st \in {NoSet} \cup {SetPart(x, v) : x \in XKeys, v \in 1..NV} :
        /\ \/ (\E k \in TKeys : \E sh \in Shapes(Refable) : InsNow(k, sh, st)) /\ wpend' = <<>>
+          \/ (Swap /\ ~TwoStep /\ \E k \in TKeys, dk \in TKeys : \E sh \in Shapes(Refable) : CommitInsD(k, sh, st, UsedNow, dk)) /\ wpend' = <<>>
           \/ (\E k \in TKeys : CommitDeref(k, st)) /\ UNCHANGED wpend
           \/ (\E k \in TKeys : CommitRef(k, st)) /\ UNCHANGED wpend
           \/ CommitSetOnly(st) /\ UNCHANGED wpend
@@ -214,14 +225,14 @@ Unlock(k) ==
 --------------------------------------------------------------------------
 (* Log worker: process_commits                                             *)
 
-TreeKeyOf(tx) == IF tx.tree.t = "none" THEN {} ELSE {tx.tree.k}
+TreeKeyOf(tx) == IF tx.tree.t = "none" THEN {} ELSE {tx.tree.k} \cup DerefKeys(tx)
 conflict == conflictT # {} \/ conflictX # {}
 
 MustDefer(tx, rest) ==
     /\ "no_defer" \notin Mut
-    /\ tx.tree.t = "deref"
-    /\ \/ tx.tree.k \in locked
-       \/ \E i \in DOMAIN rest : tx.tree.k \in rest[i].used
+    /\ \E dk \in DerefKeys(tx) :
+          \/ dk \in locked
+          \/ \E i \in DOMAIN rest : dk \in rest[i].used
 
 \* defer_commit: the whole commit goes to the back under a fresh id; its overlay entries are
 \* written again under the new id (over whatever is there) and the old-id entries removed
@@ -235,11 +246,13 @@ DeferEffect ==
        /\ rest # <<>>               \* alone in the queue: same id, nothing changes (the worker spins)
        /\ queue' = Append(rest, tx2)
        /\ covlX' = IF tx.set.x = 0 THEN covlX ELSE [covlX EXCEPT ![tx.set.x] = [cid |-> nextCid, v |-> tx.set.v]]
+       \* (an insertion that is postponed because of the dereference it carries: its root entry is written again, too)
+       /\ covlT' = IF tx.tree.t = "ins" THEN [covlT EXCEPT ![tx.tree.k] = [cid |-> nextCid, root |-> tx.tree.root]] ELSE covlT
        /\ conflictT' = conflictT \cup {k \in TreeKeyOf(tx) : \E i \in DOMAIN rest : k \in TreeKeyOf(rest[i])}
        /\ conflictX' = conflictX \cup {x \in XKeys : x = tx.set.x /\ \E i \in DOMAIN rest : rest[i].set.x = x}
        /\ hist' = Hist([a |-> "Defer", cid |-> tx.cid, ncid |-> nextCid])
     /\ nextCid' = nextCid + 1
-    /\ UNCHANGED <<roots, nrc, nkids, xs, covlT, inflight, toDeref, locked, snap, nextId, ncommits,
+    /\ UNCHANGED <<roots, nrc, nkids, xs, inflight, toDeref, locked, snap, nextId, ncommits,
                    nlocks, ideal, idealX, corrupt, hdrMark, leaked, ncrash, wpend>>
 
 Defer == queue # <<>> /\ MustDefer(Head(queue), Tail(queue)) /\ DeferEffect
@@ -261,22 +274,25 @@ IncAll(incs, st) ==
          ELSE IncAll(Tail(incs), [st EXCEPT !.rc[n] = @ + 1])
 
 \* the dereference walk takes the tree's write lock
-NeedsWriteLock(tx) == tx.tree.t = "deref" /\ roots[tx.tree.k].rc = 1
+WriteLockKeys(tx) == {dk \in DerefKeys(tx) : roots[dk].rc = 1}
 
 PopOK(tx, rest) ==
     /\ ~MustDefer(tx, rest)
-    /\ toDeref' = IF tx.tree.t = "deref" THEN [toDeref EXCEPT ![tx.tree.k] = @ - 1] ELSE toDeref
+    /\ toDeref' = [j \in TKeys |-> IF j \in DerefKeys(tx) THEN toDeref[j] - 1 ELSE toDeref[j]]
 
 ApplyTx(tx) ==
     LET t == tx.tree
         st0 == [rc |-> nrc, bad |-> FALSE]
-        st1 == IF t.t = "ins" THEN (IF "no_inc" \in Mut THEN st0 ELSE IncAll(t.incs, st0))
+        sti == IF t.t = "ins" THEN (IF "no_inc" \in Mut THEN st0 ELSE IncAll(t.incs, st0)) ELSE st0
+        st1 == IF t.t = "ins" THEN (IF DK(tx) # 0 /\ roots[DK(tx)].rc = 1 THEN Walk(t.dkids, sti) ELSE sti)
                ELSE IF t.t = "deref" /\ roots[t.k].rc = 1 THEN Walk(t.kids, st0)
                ELSE st0 IN
     /\ roots' = IF t.t = "ins"
-                THEN [roots EXCEPT ![t.k] = IF @.rc = 0 THEN t.root
-                                            ELSE IF RcRoots THEN [@ EXCEPT !.rc = @ + 1]
-                                            ELSE t.root]
+                THEN [j \in TKeys |-> IF j = t.k THEN (IF roots[j].rc = 0 THEN t.root
+                                                        ELSE IF RcRoots THEN [roots[j] EXCEPT !.rc = @ + 1]
+                                                        ELSE t.root)
+                                      ELSE IF j = DK(tx) THEN (IF roots[j].rc <= 1 THEN NoRoot ELSE [roots[j] EXCEPT !.rc = @ - 1])
+                                      ELSE roots[j]]
                 ELSE IF t.t = "ref"
                 THEN [roots EXCEPT ![t.k] = IF @.rc = 0 THEN @ ELSE [@ EXCEPT !.rc = @ + 1]]
                 ELSE IF t.t = "deref"
@@ -292,7 +308,7 @@ ApplyTx(tx) ==
 \* Fine: the deferral check (with the commit popped) ...
 PopEffect ==
     /\ Fine /\ queue # <<>> /\ inflight = <<>>
-    /\ toDeref' = IF Head(queue).tree.t = "deref" THEN [toDeref EXCEPT ![Head(queue).tree.k] = @ - 1] ELSE toDeref
+    /\ toDeref' = [j \in TKeys |-> IF j \in DerefKeys(Head(queue)) THEN toDeref[j] - 1 ELSE toDeref[j]]
     /\ inflight' = <<Head(queue)>> /\ queue' = Tail(queue)
     /\ hist' = Hist([a |-> "Pop", cid |-> Head(queue).cid])
     /\ UNCHANGED <<roots, nrc, nkids, xs, covlT, covlX, locked, snap, nextId, nextCid, ncommits,
@@ -304,7 +320,7 @@ Pop == queue # <<>> /\ ~MustDefer(Head(queue), Tail(queue)) /\ PopEffect
 Apply ==
     /\ Fine /\ inflight # <<>>
     /\ LET tx == inflight[1] IN
-       /\ NeedsWriteLock(tx) => tx.tree.k \notin locked
+       /\ WriteLockKeys(tx) \cap locked = {}
        /\ ApplyTx(tx)
        /\ hist' = Hist([a |-> "Apply", cid |-> tx.cid])
     /\ inflight' = <<>>
